@@ -8,6 +8,7 @@ package main
 
 import (
 	"fmt"
+	"reflect"
 	"sort"
 	"strconv"
 	"strings"
@@ -25,15 +26,26 @@ import (
 const rule = "schedules = random walks over the model's enabled steps (enqueue / park / roll-over / TTL expiry / clock tick, " +
 	"natural, delayed-park, late-roll-over and mixed styles) + ALL schedules of a fixed length over a small step alphabet " +
 	"(quota 1 and 2, <= 3-4 requests; length 6 quick / 9 thorough) + a malformed stream, replayed on the real queue, + corpus witnesses; " +
+	"plugin level (real StrategyBasedQueuePlugin): bursts of k concurrent first requests per fresh remedy key behind a start barrier " +
+	"(queues created per key, passed, waiting, refused) and sequential multi-key scenarios; " +
 	"non-trivial = at least one request was queued and at least one roll-over ran; distinct by (ops, answers)"
 
 type rq struct {
 	id    int
 	prio  int64
 	ttl   int64
-	phase string // pass full gap parked done
-	gate  chan struct{}
-	res   chan bool
+	phase  string // pass full gap parked done
+	gate   chan struct{}
+	res    chan bool
+	req    *queue.Request
+	handed bool // a hand-off was seen buffered in doneCh while the request was still in the gap
+}
+
+// handoffBuffered reads len(req.doneCh) (unexported field, read-only through reflection): after the
+// repair of F10a the hand-off to a request that has not reached its select yet is a buffered send.
+func handoffBuffered(req *queue.Request) bool {
+	f := reflect.ValueOf(req).Elem().FieldByName("doneCh")
+	return f.IsValid() && f.Kind() == reflect.Chan && f.Len() > 0
 }
 
 type world struct {
@@ -96,6 +108,7 @@ func (w *world) enq(p, ttl int64) string {
 	r := &rq{id: len(w.reqs), prio: p, ttl: ttl, res: make(chan bool, 1)}
 	w.reqs = append(w.reqs, r)
 	req := queue.NewRequest(strconv.Itoa(r.id), float64(p), w.c)
+	r.req = req
 	w.started++
 	go func() {
 		defer func() { w.fin <- struct{}{} }()
@@ -113,11 +126,62 @@ func (w *world) enq(p, ttl int64) string {
 	case ch := <-w.g.arrived:
 		r.gate = ch
 		r.phase = "gap"
-		return "push"
 	case <-time.After(settleTimeout):
 		panic("harness: enqueue neither returned nor reached the hook")
 	}
-	return r.phase
+	a := r.phase
+	if a == "gap" {
+		a = "push"
+	}
+	// the locked section of this Enqueue is over: collect the waiters it served
+	return a + " rel=" + w.collectReleased(r)
+}
+
+// collectReleased waits until every request handed off by the critical section that just ended has
+// shown it (parked ones return true; requests still in the gap have the hand-off buffered in doneCh)
+// and returns their ids, sorted.  `self` (may be nil) is the request whose Enqueue just ran.
+func (w *world) collectReleased(self *rq) string {
+	before := w.inSel
+	var rel []int
+	waitUntil("released waiters to return", func() bool {
+		for _, r := range w.reqs {
+			if r.phase == "parked" {
+				select {
+				case ok := <-r.res:
+					w.awaitFin(1)
+					r.phase = "done"
+					if !ok {
+						panic("harness: parked request returned false without its TTL timer")
+					}
+					rel = append(rel, r.id)
+				default:
+				}
+			}
+		}
+		n := 0
+		for _, id := range rel {
+			if !w.reqs[id].handed {
+				n++
+			}
+		}
+		return enqueuersInSelect()+n == before
+	})
+	w.inSel -= len(rel)
+	for _, r := range w.reqs {
+		if r.phase == "gap" && r != self && !r.handed && handoffBuffered(r.req) {
+			r.handed = true
+			rel = append(rel, r.id)
+		}
+	}
+	sort.Ints(rel)
+	if len(rel) == 0 {
+		return "-"
+	}
+	xs := make([]string, len(rel))
+	for i, x := range rel {
+		xs[i] = strconv.Itoa(x)
+	}
+	return strings.Join(xs, ",")
 }
 
 func (w *world) awaitFin(n int) {
@@ -152,6 +216,9 @@ func (w *world) park(id int64) string {
 		// clock.After(0) is ready at once: the select takes the TTL case (doneCh cannot be ready)
 		ok := w.awaitRes(r)
 		r.phase = "done"
+		if ok && r.handed {
+			return "released"
+		}
 		if ok {
 			return "ttl0-returned-true"
 		}
@@ -172,6 +239,9 @@ func (w *world) park(id int64) string {
 	if returned {
 		w.awaitFin(1)
 		r.phase = "done"
+		if retOK && r.handed {
+			return "released" // the buffered hand-off is taken at once
+		}
 		return fmt.Sprintf("returned-without-parking ok=%v", retOK)
 	}
 	w.inSel++
@@ -186,36 +256,7 @@ func (w *world) roll() string {
 	}
 	w.c.fire(ownerRoll)
 	w.c.awaitReg(ownerRoll) // locked section finished, timer re-armed
-	before := w.inSel
-	var rel []int
-	waitUntil("released waiters to return", func() bool {
-		for _, r := range w.reqs {
-			if r.phase == "parked" {
-				select {
-				case ok := <-r.res:
-					w.awaitFin(1)
-					r.phase = "done"
-					if !ok {
-						panic("harness: parked request returned false without its TTL timer")
-					}
-					rel = append(rel, r.id)
-				default:
-				}
-			}
-		}
-		return enqueuersInSelect()+len(rel) == before
-	})
-	w.inSel -= len(rel)
-	sort.Ints(rel)
-	s := "-"
-	if len(rel) > 0 {
-		var xs []string
-		for _, x := range rel {
-			xs = append(xs, strconv.Itoa(x))
-		}
-		s = strings.Join(xs, ",")
-	}
-	return "rel=" + s
+	return "rel=" + w.collectReleased(nil)
 }
 
 func (w *world) expire(id int64) string {
@@ -264,6 +305,9 @@ func (w *world) shutdown() {
 }
 
 func exec(c proto.Case, o *proto.Out) []string {
+	if len(c.Ops) > 0 && strings.HasPrefix(c.Ops[0], "pcfg") {
+		return execPlugin(c, o)
+	}
 	outs := make([]string, len(c.Ops))
 	var w *world
 	defer func() {
@@ -316,12 +360,17 @@ func exec(c proto.Case, o *proto.Out) []string {
 					}
 				}
 				a = w.enq(p, ttl)
-				o.Count("enq-" + a)
-				if a == "push" {
+				kind := strings.Fields(a)[0]
+				o.Count("enq-" + kind)
+				if kind == "push" {
 					pushes++
 				}
-				if a == "pass" && waiting > 0 {
-					o.Count("pass-while-others-wait")
+				if !strings.HasSuffix(a, "rel=-") {
+					o.Count("enq-" + kind + "-serving-waiters")
+					released++
+				}
+				if kind == "pass" && waiting > 0 {
+					o.Count("pass-after-serving-all-waiters")
 				}
 			}
 		case "park":
@@ -348,6 +397,9 @@ func exec(c proto.Case, o *proto.Out) []string {
 					o.Count(fmt.Sprintf("roll-released-%d", n))
 					if gaps > 0 {
 						o.Count("roll-with-request-in-gap")
+					}
+					if gaps > 0 && n > 0 {
+						o.Count("roll-releasing-with-request-in-gap")
 					}
 				} else {
 					o.Count("roll-not-enabled")
